@@ -32,6 +32,8 @@ def run(ctx):
                 cmd = [exe, "--threads", mt, "--spin-threads", st, "--n", str(n), "--spin-n", str(max(sn, 400)), "--handshakes", str(500 if q else 10000), "--seed", str(sd * 10 + rep), "--stall", "45"]
                 if kind is not None:
                     cmd += ["--kind", str(kind)]
+                if mt == sets[0][0] and rep == 0 and not hb:
+                    cmd += ["--long-hold-ms", "600" if q else "2500"]       # a waiter spinning for a long time inside lock() must still be kept out
                 job = dict(cmd=cmd, variant=variant, tag="%s T=%s/%s" % (variant, mt, st), san_ctx="lock-" + model, model=model)
                 if hb:
                     job["tsan_log"] = "/tmp/vfC01-%s-%d-%s-%d" % (variant, sd, mt.replace(",", "_"), rep)
